@@ -115,10 +115,11 @@ def search(ctx):
     clause over the code's own row set with HiGHS and evaluate the maximiser in the model's spec."""
     from lib import advsearch
     isos = sorted(pipeline.country_rows())
-    ps = list(lpcheck.PRESETS_QUICK[:3]) + [lpcheck.random_preset(ctx.rng, isos) for _ in range(3)]
+    ps = list(lpcheck.PRESETS_SEARCH) + [lpcheck.random_preset(ctx.rng, isos) for _ in range(2)]
     for iso, over in ps:
         run = pipeline.run_scenario(iso, pipeline.options(**over))
         for k, s in enumerate(run.solves):
+            audit_solve(ctx, run, k, s)      # reported allocation first
             if s.rows:
                 advsearch.adversarial(ctx, run, k, s)
         if ctx.violations and any(v["key"] not in KNOWN_GAP_KEYS.values() for v in ctx.violations):
